@@ -31,6 +31,17 @@ CHECKS = {
         design_ref="DESIGN.md section 3 C05, section 8",
         technique="who-may-call table; forward must-analysis over MIR CFG; provenance",
     ),
+    "C24": dict(
+        category="other",
+        text="Decides the run-to-run determinism sources on the build path: every iteration over a RandomState-hashed "
+             "std HashMap/HashSet in 11 crates is found from MIR receiver types and classified by the data flow of the "
+             "iterator (order-insensitive consumer, sorted before use, or order-sensitive). Inside the functions that "
+             "define the processing order, the filelist and the lockfile text an order-sensitive iteration is a "
+             "violation; the directory walk must be sorted. Elsewhere order-sensitive sites must be in a triage table "
+             "confirmed by reading, else they are reported UNDECIDED. Independence from the *input* file order is not decided.",
+        design_ref="DESIGN.md section 3 C24, section 8",
+        technique="typed call-site enumeration; iterator data-flow classification; CFG separation (sort before sink)",
+    ),
     "C29": dict(
         category="proof",
         text="Decides the guard and GC structure of veryl_cache::Store: gc's referenced set covers every blob-bearing "
